@@ -10,6 +10,7 @@ from ..cfg import cfg_of, events_per_iteration
 from ..dataflow import reaching, value_sources
 from ..model import AnalysisError, Program, norm_key, parent_of
 from ..report import Checker
+from .common import family_nodes
 import sympy as sp
 from ..expr import Translator, equal
 
@@ -183,11 +184,21 @@ def _arrange_callers(ck: Checker, prog: Program):
             ck.violation("C07.R2", g.qualname, "trace count", "a file set that does not hold exactly three traces is not refused", loc=g.loc())
     ck.floor("C07.R1", n, 3, "callers of _arrange_traces")
     ft = prog.func("timeseries.TimeSeries.from_trace")
-    rets = [r for r in own_nodes(ft.node) if isinstance(r, ast.Return)]
-    if len(rets) == 1 and unparse(rets[0].value) == "cls(trace.data, trace.stats.delta)":
+    from ..pathtable import PathTable
+    init = prog.func("timeseries.TimeSeries.__init__")
+
+    def hook(call, T):
+        if isinstance(call.func, ast.Name) and call.func.id == "cls":
+            b = bind_call(call, init.params, skip_first=True)
+            return sp.Function("TimeSeries")(*[T.tr(b[p]) if p in b else sp.Symbol("<missing>") for p in init.params[1:]])
+        return None
+    leaves = PathTable(prog, ft.module, call_hook=hook, structured=True).leaves(ft.node.body)
+    T_ = sp.Symbol("trace", real=True)
+    want = sp.Function("TimeSeries")(sp.Function("attr_data")(T_), sp.Function("attr_delta")(sp.Function("attr_stats")(T_)))
+    if len(leaves) == 1 and leaves[0].exit == "return" and leaves[0].value == want:
         ck.ok("C07.R1", ft.qualname, "samples = trace.data, time step = trace.stats.delta")
     else:
-        ck.violation("C07.R1", ft.qualname, "from_trace", "a trace is not converted as (trace.data, trace.stats.delta)", loc=ft.loc())
+        ck.violation("C07.R1", ft.qualname, "from_trace", f"a trace is not converted as (trace.data, trace.stats.delta) but as {[str(l.value) for l in leaves]}", loc=ft.loc())
 
 
 def _pattern_text(prog: Program, exec_name: str) -> Optional[str]:
@@ -229,6 +240,11 @@ def _column_reader(ck: Checker, prog: Program, fname: str, roles_from_patterns: 
     return f, q, lp, stores
 
 
+def _store_name(st) -> Optional[str]:
+    t = st.targets[0] if isinstance(st, ast.Assign) else None
+    return t.value.id if isinstance(t, ast.Subscript) and isinstance(t.value, ast.Name) else None
+
+
 def _regex_of(v) -> Optional[str]:
     """Name of the compiled pattern whose first group a header value is taken from: conv(search(<re>, text).groups()[0])."""
     for a in sp.preorder_traversal(v):
@@ -259,13 +275,12 @@ def _column_provenance(ck: Checker, prog: Program, fname: str, roles, fs_exec: s
     GROUP = sp.Symbol("<row match>", real=True)
     if not isinstance(lp.target, ast.Name):
         raise AnalysisError(f"{q}: row loop target")
-    # the running row counter: the name used as first index of the column stores
-    col_stores = [st for st in lp.body if isinstance(st, ast.Assign) and isinstance(st.targets[0], ast.Subscript) and isinstance(st.targets[0].slice, ast.Tuple)
-                  and len(st.targets[0].slice.elts) == 2 and isinstance(st.targets[0].value, ast.Name)]
-    if len(col_stores) != 3:
-        raise AnalysisError(f"{q}: expected three column stores per row, found {len(col_stores)}")
-    arr = col_stores[0].targets[0].value.id
-    rowvar = unparse(col_stores[0].targets[0].slice.elts[0])
+    # the running row counter: incremented by one in the row loop
+    counters = [st.target.id for st in lp.body if isinstance(st, ast.AugAssign) and isinstance(st.target, ast.Name) and isinstance(st.op, ast.Add)
+                and isinstance(st.value, ast.Constant) and st.value.value == 1]
+    if len(counters) != 1:
+        raise AnalysisError(f"{q}: the row counter of the row loop was not identified ({counters})")
+    rowvar = counters[0]
     ROW = sp.Symbol("<row>", integer=True)
     env = dict(env0)
     env[lp.target.id] = GROUP
@@ -273,18 +288,50 @@ def _column_provenance(ck: Checker, prog: Program, fname: str, roles, fs_exec: s
     sub = PathTable(prog, f.module, env=env, unroll=True, structured=True).leaves(lp.body)
     if len(sub) != 1:
         raise AnalysisError(f"{q}: branching row loop")
-    cols = {}
+    # number of fields in a row: the capturing groups of the row pattern
+    it = lp.iter
+    pat = it.func.value.id if isinstance(it, ast.Call) and isinstance(it.func, ast.Attribute) and isinstance(it.func.value, ast.Name) else None
+    ptxt = _pattern_text(prog, pat) if pat else None
+    ngroups = _groups(ptxt) if ptxt is not None else None
+    cols, arrs = {}, set()
+    from ..pathtable import comp_element
     for e in sub[0].events:
         if e[0] == "store" and id(e[3]) in sub[0].store_at:
             base, ix = sub[0].store_at[id(e[3])]
-            if getattr(ix, "func", None) == sp.Function("idx") and ix.args[0] == ROW and ix.args[1].is_Integer:
+            if getattr(ix, "func", None) == sp.Function("idx") and ix.args[0] == ROW and len(ix.args) == 2 and ix.args[1].is_Integer:
                 cols[int(ix.args[1])] = e[2]
+                arrs.add(_store_name(e[3]))
+            elif getattr(ix, "func", None) == sp.Function("idx") and ix.args[0] == ROW and len(ix.args) == 2 and isinstance(ix.args[1], sp.Tuple):
+                # data[row, [c0, c1, c2]] = values: value j lands in column c_j
+                v = e[2]
+                if not isinstance(v, sp.Tuple) and comp_element(v, 0) is not None:
+                    v = sp.Tuple(*[comp_element(v, i) for i in range(len(ix.args[1]))])
+                if not isinstance(v, sp.Tuple) or len(v) != len(ix.args[1]):
+                    raise AnalysisError(f"{q}: row store `{norm_key(e[3], 60)}` not understood")
+                for cj, x in zip(ix.args[1], v):
+                    cols[int(cj) if cj.is_Integer else cj] = x
+                arrs.add(_store_name(e[3]))
+            elif ix == ROW or (getattr(ix, "func", None) == sp.Function("idx") and ix.args == (ROW,)):
+                # whole row at once: a display of values, or a map over the fields of the row
+                v = e[2]
+                if not isinstance(v, sp.Tuple) and comp_element(v, 0) is not None:
+                    g = (v.args[0] if getattr(v.func, "__name__", "") in ("list", "tuple") else v).args[1].args[1]
+                    if g == sp.Function("groups")(GROUP) and ngroups is not None:
+                        v = sp.Tuple(*[comp_element(v, i) for i in range(ngroups)])
+                if not isinstance(v, sp.Tuple):
+                    raise AnalysisError(f"{q}: row store `{norm_key(e[3], 60)}` not understood")
+                for j, x in enumerate(v):
+                    cols[j] = x
+                arrs.add(_store_name(e[3]))
+    if len(arrs) != 1 or None in arrs:
+        raise AnalysisError(f"{q}: expected the row values to be stored into one local array, found {sorted(map(str, arrs))}")
+    arr = next(iter(arrs))
     col_role = {j: roles(v, GROUP) for j, v in cols.items()}
-    if sorted(col_role.values(), key=str) != ["E", "N", "V"] or sorted(cols) != [0, 1, 2]:
+    if sorted(col_role.values(), key=str) != ["E", "N", "V"] or sorted(cols, key=str) != [0, 1, 2]:
         ck.violation("C07.R1", q, "column filling", f"data columns are filled with components {col_role} (sources { {j: str(v)[:80] for j, v in cols.items()} }); each of V, N, E must fill exactly one column",
                      loc=f.loc(lp))
         return f, q, lp
-    ck.ok("C07.R1", q, f"data columns {dict(sorted(col_role.items()))} by the file's own channel description")
+    ck.ok("C07.R1", q, f"data columns {dict(sorted(col_role.items(), key=str))} by the file's own channel description")
     # constructor slots, scalings and time step - per returning path (the text may come from a file or a StringIO)
     bad, bad_scale, bad_dt = [], [], []
     ARR = sp.Symbol(arr, real=True)
@@ -555,7 +602,8 @@ def _peer(ck: Checker, prog: Program):
     if n_ok == 3:
         ck.ok("C07.R1", q, "ns, ew, vt are elements of the per-file component list")
     # the literals that decide the roles
-    consts = {x.value for x in own_nodes(f.node) if isinstance(x, ast.Constant) and isinstance(x.value, (str, int)) and not isinstance(x.value, bool)}
+    fam = list(family_nodes(prog, f))        # the reader and any new helper it delegates to
+    consts = {x.value for x in fam if isinstance(x, ast.Constant) and isinstance(x.value, (str, int)) and not isinstance(x.value, bool)}
     need = {"UP", "VER", "N", "E", 180, 360}
     zed = bool({"z", "Z"} & consts)
     if need <= consts and zed:
@@ -563,7 +611,7 @@ def _peer(ck: Checker, prog: Program):
     else:
         ck.violation("C07.R1", q, "role literals", f"the literals that decide the component roles are incomplete: missing {sorted(map(str, need - consts))}{'' if zed else ' and z'}", loc=f.loc())
     # the argmin / argmax of |relative azimuth| choose north / east
-    calls = {call_name(x) for x in calls_in(f.node)}
+    calls = {call_name(x) for x in fam if isinstance(x, ast.Call)}
     if {"argmin", "argmax"} <= calls:
         ck.ok("C07.R1", q, "north = smallest, east = largest |relative azimuth|", nontrivial=False)
     else:
@@ -576,7 +624,7 @@ def _peer(ck: Checker, prog: Program):
         ck.ok("C07.R2", q, "unequal time steps raise")
     else:
         ck.violation("C07.R2", q, "time-step agreement", "files with different time steps are not refused", loc=f.loc())
-    n_raise = sum(1 for x in own_nodes(f.node) if isinstance(x, ast.Raise))
+    n_raise = sum(1 for x in fam if isinstance(x, ast.Raise))
     if n_raise >= 4:
         ck.ok("C07.R1", q, "unknown codes raise", nontrivial=False)
     else:
@@ -827,6 +875,8 @@ def _regex(ck: Checker, prog: Program):
                 need, exact = len(par.targets[0].elts), True
             elif isinstance(par, ast.Assign):
                 need = 1
+            elif isinstance(par, (ast.comprehension, ast.Call, ast.For, ast.Starred)):
+                need = 0            # consumed as a whole: no particular field is demanded here
             good = need is not None and (ng == need if exact else ng >= need)
             if good:
                 ck.ok("C07.R6", f.qualname, f"{pat_name}: {ng} group(s), consumer needs {'exactly ' if exact else 'at least '}{need}")
